@@ -507,6 +507,55 @@ func (g *gctx) deleteVertex(n *node) bool {
 	return true
 }
 
+// a bit-identical copy of a vertex inserted right after it (consecutive duplicate): the vertex counts
+// differ, so the statement says F although no "new" position appears (an implementation that
+// normalises its operands — drops repeated points — before comparing answers T)
+func (g *gctx) dupVertex(n *node) bool {
+	m := g.pick(n.collect(func(m *node) bool { return hasPts(m) && m.kind != kP && m.kind != kB && len(m.pts) > 0 }))
+	if m == nil {
+		return false
+	}
+	i := g.r.Intn(len(m.pts))
+	if g.r.Intn(3) == 0 {
+		i = len(m.pts) - 1 // the original is then a PREFIX of the longer list
+	}
+	if closed(m) && i == len(m.pts)-1 {
+		i = g.r.Intn(len(m.pts) - 1)
+	}
+	m.pts = append(m.pts[:i+1:i+1], m.pts[i:]...)
+	return true
+}
+
+// an EMPTY member (line without points, ring without points, polygon without rings / with one empty
+// ring, empty collection or multi-point) inserted: the member counts differ -> F. Only into a
+// container that has no vertexless member yet (two of them would be candidates of each other).
+func (g *gctx) insertEmptyMember(n *node) bool {
+	m := g.pick(n.collect(func(m *node) bool { return isContainer(m) && !hasVertexless(m.kids) }))
+	if m == nil {
+		return false
+	}
+	var k *node
+	switch m.kind {
+	case kMLS:
+		k = &node{kind: kLine}
+	case kPG:
+		k = &node{kind: kRing}
+	case kMPG:
+		k = &node{kind: kPG}
+		if g.r.Bool() {
+			k.kids = []*node{{kind: kRing}}
+		}
+	default:
+		k = &node{kind: []int{kGC, kMP, kLS, kMLS, kPG, kMPG}[g.r.Intn(6)]}
+	}
+	i := g.r.Intn(len(m.kids) + 1)
+	if g.r.Bool() {
+		i = len(m.kids)
+	}
+	m.kids = append(m.kids[:i:i], append([]*node{k}, m.kids[i:]...)...)
+	return true
+}
+
 func (g *gctx) reverseLine(n *node) bool {
 	m := g.pick(n.collect(func(m *node) bool { return (m.kind == kLS || m.kind == kLine) && len(m.pts) >= 2 }))
 	if m == nil {
@@ -892,6 +941,7 @@ func (g *gctx) bigCases(out *bufio.Writer, huge bool) {
 		do("combo:T", func(b *node) bool { g.permute(b); g.rotate(b); g.perturb(b); return true })
 		do("displace:F", g.displace)
 		do("vdelete:F", g.deleteVertex)
+		do("vdup:F", g.dupVertex)
 		do("vswap:F", g.swapVertices)
 		// one vertex displaced at chosen positions of the longest point list (second, third, middle,
 		// middle+1, last-but-one, last of the cycle): odd and even indices, both ends
@@ -1329,6 +1379,10 @@ func gen(seed uint64, tier string) {
 		do("insert:F", func(b *node) bool { g.permute(b); g.perturb(b); return g.insertMember(b) })
 		do("vinsert:F", g.insertVertex)
 		do("vdelete:F", g.deleteVertex)
+		do("vdup:F", g.dupVertex)
+		do("vdup:F", func(b *node) bool { g.permute(b); g.rotate(b); g.perturb(b); return g.dupVertex(b) })
+		do("insert:F", g.insertEmptyMember)
+		do("insert:F", func(b *node) bool { g.permute(b); g.perturb(b); return g.insertEmptyMember(b) })
 		do("type:F", g.changeType)
 		do("mshift:F", g.shiftMember)
 		do("mshift:F", func(b *node) bool { g.permute(b); g.rotate(b); g.perturb(b); return g.shiftMember(b) })
